@@ -693,6 +693,65 @@ func runC07(c *Ctx) {
 
 	r9 := c.Rule("R9", "parsing and loading keep no process-wide state (package-level variables are only read after init)", 1)
 	noProcessState(c, r9, []string{"gqlparser.LoadSchema", "validator.LoadSchema", "validator.ValidateSchemaDocument", "parser.ParseSchema", "parser.ParseSchemas", "parser.ParseSchemaWithLimit", "parser.ParseSchemasWithLimit"})
+
+	r11 := c.Rule("R11", "the loader only adds to the schema's registries", 1)
+	registriesGrowOnly(c, r11)
+
+	r12 := c.Rule("R12", "every member list an extension can carry is merged into its definition, for every kind", 5)
+	extensionMergeCoverage(c, r12)
+}
+
+// registriesGrowOnly (C07.R11 / C09.R8): the closure argument of R2/R3 — every name that was resolved against
+// Schema.Types or Schema.Directives while loading still resolves afterwards — and "every schema returned contains the
+// built-in scalars, directives and introspection types" both need that nothing registered is taken out again: no delete
+// on a registry of ast.Schema, and no second store to a registry field, anywhere in the module outside tests.
+func registriesGrowOnly(c *Ctx, r *RuleResult) {
+	p := c.P
+	schemaT := p.LookupType("ast", "Schema")
+	if schemaT == nil {
+		r.AnchorLost("ast.Schema")
+		return
+	}
+	registries := map[string]bool{}
+	st := schemaT.Underlying().(*types.Struct)
+	for i := 0; i < st.NumFields(); i++ {
+		if _, ok := st.Field(i).Type().Underlying().(*types.Map); ok {
+			registries[st.Field(i).Name()] = true
+		}
+	}
+	if len(registries) == 0 {
+		r.AnchorLost("map-typed fields of ast.Schema")
+		return
+	}
+	n := 0
+	for _, fn := range p.Funcs() {
+		if !p.inModule(fn) {
+			continue
+		}
+		allInstrs(fn, func(in ssa.Instruction) {
+			ci, ok := in.(ssa.CallInstruction)
+			if !ok {
+				return
+			}
+			b, ok := ci.Common().Value.(*ssa.Builtin)
+			if !ok || (b.Name() != "delete" && b.Name() != "clear") {
+				return
+			}
+			m := ci.Common().Args[0]
+			if stn, f, ok := fieldLoadOf(m); ok && stn == "Schema" && registries[f] {
+				n++
+				r.Fail(in.Pos(), p.FuncName(fn), b.Name()+" on Schema."+f, fmt.Sprintf("an entry is removed from Schema.%s: a name that the loader (or validation) has already resolved against the registry — a built-in scalar used only as a directive argument, a type referenced from a place the removal did not look at — no longer resolves, and links looked up under it are nil", f))
+			}
+		})
+	}
+	if n == 0 {
+		var names []string
+		for f := range registries {
+			names = append(names, f)
+		}
+		sort.Strings(names)
+		r.OK(fmt.Sprintf("no delete or clear on Schema.{%s} anywhere in the module", strings.Join(names, ",")), "registries only grow")
+	}
 }
 
 // resultCheckedNil: the (last) result of call is compared with nil and block b lies on the nil side.
@@ -1533,6 +1592,50 @@ func typeComparisonRule(c *Ctx, r *RuleResult) {
 				r.Fail(fn.Pos(), name, "descent without NonNull of both types", "the function descends through Elem of two types but does not read NonNull of both")
 			}
 		}
+		// a flag that can suppress the nullability failure belongs to the level it was computed for: the recursion on
+		// the element types must not inherit it (a non-null default excuses the variable's own nullability, not its items')
+		for qi, q := range fn.Params {
+			if b, ok := q.Type().Underlying().(*types.Basic); !ok || b.Kind() != types.Bool {
+				continue
+			}
+			relaxes := false
+			for _, ret := range returnsOf(fn) {
+				if len(ret.Results) != 1 {
+					continue
+				}
+				if cst, ok := ret.Results[0].(*ssa.Const); !ok || cst.Value == nil || constant.BoolVal(cst.Value) {
+					continue
+				}
+				hasQ, hasNN := false, false
+				for _, cd := range condsAt(ret.Block()) {
+					if cd.V == ssa.Value(q) {
+						hasQ = true
+					}
+					if st, f, ok := fieldLoadOf(cd.V); ok && st == "Type" && f == "NonNull" {
+						hasNN = true
+					}
+				}
+				if hasQ && hasNN {
+					relaxes = true
+				}
+			}
+			if !relaxes {
+				continue
+			}
+			for _, ci := range callsTo([]*ssa.Function{fn}, fn) {
+				args := ci.Common().Args
+				roots := map[string]bool{}
+				for _, a := range args {
+					if st, f, ok := fieldLoadOf(a); ok && st == "Type" && f == "Elem" {
+						roots[typeRoot(a)] = true
+					}
+				}
+				if len(roots) >= 2 && qi < len(args) && args[qi] == ssa.Value(q) {
+					bad = true
+					r.Fail(ci.Pos(), name, "nullability relaxation handed down to the element types ("+q.Name()+")", fmt.Sprintf("parameter %s can suppress the failure for a nullable type in a non-null position, and the recursion on the element types passes it on unchanged: the allowance made for one level (a variable with a non-null default) then holds for list items at every depth, and `[Int]` is accepted where `[Int!]` is expected", q.Name()))
+				}
+			}
+		}
 		if !bad && (cmp > 0 || len(elem) >= 2) {
 			r.OK(name, fmt.Sprintf("%d cross comparisons use the same accessor; descent reads NonNull of both sides", cmp))
 		}
@@ -1793,6 +1896,145 @@ func runC17(c *Ctx) {
 	// ---- R6 whether a check runs does not depend on what was checked before (shared with C07.R7)
 	r6 := c.Rule("R6", "branches of the loader's check functions are checks, loop control or specified dispatch — no check is skipped because of an earlier one", 24)
 	c07NoShortcut(c, r6)
+
+	r7 := c.Rule("R7", "every member list an extension can carry is merged into its definition, for every kind", 5)
+	extensionMergeCoverage(c, r7)
+
+	r8 := c.Rule("R8", "a search through a definition-ordered list decides by existence, not by the first element met", 20)
+	orderFreeSearches(c, r8)
+}
+
+// orderFreeSearches (C17.R8): PossibleTypes, Implements, field and member lists are filled in the order the definitions
+// were written. A loop over such a list inside the loader may leave early with a verdict only if the verdict does not
+// depend on which element came first: `return true` / `return false` / `return err` under `err != nil` are existential
+// (some element has the property), whereas `return f(elem)` for the first element of some sort answers for that element
+// alone and the elements behind it are never looked at — the verdict changes when the definitions are reordered.
+func orderFreeSearches(c *Ctx, r *RuleResult) {
+	p := c.P
+	roots := []*ssa.Function{}
+	for _, n := range []string{"validator.ValidateSchemaDocument", "validator.LoadSchema"} {
+		if f := p.Func(n); f != nil {
+			roots = append(roots, f)
+		}
+	}
+	if len(roots) == 0 {
+		r.AnchorLost("validator.ValidateSchemaDocument")
+		return
+	}
+	var fns []*ssa.Function
+	for fn := range p.reachableFrom(roots, nil) {
+		if p.inModule(fn) && fn.Pkg != nil && strings.HasSuffix(fn.Pkg.Pkg.Path(), "/validator") {
+			fns = append(fns, fn)
+		}
+	}
+	sort.Slice(fns, func(i, j int) bool { return p.FuncName(fns[i]) < p.FuncName(fns[j]) })
+	nOK := 0
+	for _, fn := range fns {
+		_, bodies := loopsOf(fn)
+		if len(bodies) == 0 {
+			continue
+		}
+		for _, ret := range returnsOf(fn) {
+			inLoop := false
+			for _, body := range bodies {
+				if body[ret.Block()] {
+					inLoop = true
+				}
+			}
+			if !inLoop {
+				// a return block reached only from inside a loop (the loop's exit edge target with a single predecessor in the body)
+				for h, body := range bodies {
+					_ = h
+					b := ret.Block()
+					if len(b.Preds) == 1 && body[b.Preds[0]] && !body[b] {
+						// leaves the loop from the body, not from the header's exit test
+						if b.Preds[0] != h {
+							inLoop = true
+						}
+					}
+				}
+			}
+			if !inLoop {
+				continue
+			}
+			bad := false
+			for _, v := range ret.Results {
+				v = stripChange(v)
+				if _, isC := v.(*ssa.Const); isC {
+					continue
+				}
+				bt, isBasic := v.Type().Underlying().(*types.Basic)
+				isBool := isBasic && bt.Kind() == types.Bool
+				isErr := isErrorType(v.Type()) || isGqlErrPtr(v.Type())
+				if !isBool && !isErr {
+					continue // a found element: looked up by a key that identifies it
+				}
+				if isErr {
+					// failure is failure whichever element reports it
+					nonNil := false
+					if mi, isMI := v.(*ssa.MakeInterface); isMI {
+						v = stripChange(mi.X) // a typed error pointer returned as `error`: the test was made on the pointer
+					}
+					for _, cd := range condsAt(ret.Block()) {
+						if bo, ok := cd.V.(*ssa.BinOp); ok && (bo.Op == token.NEQ) == cd.True && (bo.Op == token.NEQ || bo.Op == token.EQL) {
+							if (stripChange(bo.X) == v && isNilConst(bo.Y)) || (stripChange(bo.Y) == v && isNilConst(bo.X)) {
+								nonNil = true
+							}
+						}
+					}
+					if nonNil || freshError(v) {
+						nOK++
+						continue
+					}
+				}
+				bad = true
+				r.Fail(ret.Pos(), p.FuncName(fn), "loop left with a computed verdict", fmt.Sprintf("inside a loop over a list in definition order the function returns a value computed for the element at hand (%s) instead of a constant: the elements behind it are never examined, so the answer depends on the order in which the definitions (or their sources) were given", describeValue(v)))
+			}
+			if !bad {
+				r.OK(fmt.Sprintf("%s: early exit at %s", p.FuncName(fn), p.Pos(ret.Pos())), "returns constants or an error found non-nil")
+			}
+		}
+	}
+	_ = nOK
+}
+
+func isGqlErrPtr(t types.Type) bool {
+	if pt, ok := t.Underlying().(*types.Pointer); ok {
+		if n := namedOf(pt.Elem()); n != nil && n.Obj().Name() == "Error" && n.Obj().Pkg() != nil && strings.HasSuffix(n.Obj().Pkg().Path(), "/gqlerror") {
+			return true
+		}
+	}
+	return false
+}
+
+// freshError: v is the result of a constructor call (ErrorPosf, Errorf, errors.New ...): non-nil by construction.
+func freshError(v ssa.Value) bool {
+	call, ok := v.(*ssa.Call)
+	if !ok {
+		if mi, isMI := v.(*ssa.MakeInterface); isMI {
+			return freshError(mi.X)
+		}
+		_, isAlloc := v.(*ssa.Alloc)
+		return isAlloc
+	}
+	g := call.Call.StaticCallee()
+	if g == nil || g.Pkg == nil {
+		return false
+	}
+	switch g.Pkg.Pkg.Path() + "." + g.Name() {
+	case "errors.New", "fmt.Errorf":
+		return true
+	}
+	return strings.HasSuffix(g.Pkg.Pkg.Path(), "/gqlerror") && (strings.HasPrefix(g.Name(), "Error") || strings.HasPrefix(g.Name(), "Wrap"))
+}
+
+func describeValue(v ssa.Value) string {
+	if call, ok := v.(*ssa.Call); ok {
+		if g := call.Call.StaticCallee(); g != nil {
+			return "the result of " + g.Name()
+		}
+	}
+	return v.Name()
 }
 
 func describeKey(v ssa.Value) string {
